@@ -92,7 +92,8 @@ class MixedEdgeGraph:
                 raise RuntimeError(
                     "All graph object inputs must be one of Networkx Graph or DiGraph."
                 )
-            nodes = set(graphs[0].nodes)
+            # every given graph contributes its nodes (each layer must end up with the union)
+            nodes = set(n for graph in graphs for n in graph.nodes)
 
             # dictionary of internal graphs
             self._edge_graphs = {edge_type: graph for edge_type, graph in zip(edge_types, graphs)}
